@@ -6,7 +6,7 @@ R-RELOAD-GATE    reload is attempted only when requested and keys are up / 1 s i
 R-RELOAD-NOTIFY  both client notifications are sent on the success path; prev_layer comes from the new layout.
 """
 from kq.analysis import backward_slice, blocks_calling, discr_switches
-from kq.core import callee_name, const_def, is_const, proj_fields, rvalue_operands
+from kq.core import callee_name, callee_written, const_def, is_const, is_place, proj, proj_fields, rvalue_operands
 from kq.report import RuleResult
 
 K = "kanata_state_machine::kanata::Kanata"
@@ -79,6 +79,20 @@ def rule_atomic(prog):
             if pfx[0] == K:
                 writes.append((bi, "self." + pfx[2], t.get("ln")))
                 break
+    # process-wide state behind a mutex: `*GUARDED.lock() = ..` and `&mut self` methods called on a guard
+    guard_muts = {}
+    for bi, t in f.calls():
+        if (callee_written(t) or "") == "core::ops::deref::DerefMut::deref_mut" and "MutexGuard" in (f.place_ty(t["args"][0]) or "") and not proj(t["dest"]):
+            inner = (f.local_ty(t["dest"]["l"]) or "").replace("&mut ", "")
+            guard_muts[t["dest"]["l"]] = inner.split("<")[0].split("::")[-1] or "guarded"
+    for bi, si, st in f.all_rvalues():
+        p_ = st["p"]
+        if proj(p_) and p_["l"] in guard_muts and proj(p_)[0] == "*":
+            writes.append((bi, "global:" + guard_muts[p_["l"]], st.get("ln")))
+    for bi, t in f.calls():
+        if t["args"] and is_place(t["args"][0]) and not proj(t["args"][0]) and t["args"][0]["l"] in guard_muts and (callee_name(t) or "").startswith("kanata"):
+            writes.append((bi, "global:" + guard_muts[t["args"][0]["l"]] + "." + callee_name(t).split("::")[-1] + "()", t.get("ln")))
+        # drop glue of the replaced value runs as a call/drop on the same place: ignore
     seen = set()
     for (bi, what, ln) in writes:
         if what in seen:
@@ -92,7 +106,7 @@ def rule_atomic(prog):
                      "%s is changed on a path that does not pass the Ok arm of cfg::new_from_file: a failed reload would no longer "
                      "behave as if no reload had been requested" % what)
     # strong form: Err exits after the first self-field write
-    first_writes = [bi for (bi, what, ln) in writes if what.startswith("self.") or what == "MAPPED_KEYS"]
+    first_writes = [bi for (bi, what, ln) in writes if what.startswith(("self.", "global:")) or what == "MAPPED_KEYS"]
     err_exits = []
     for bi, t in f.calls():
         cn = callee_name(t) or ""
@@ -266,5 +280,49 @@ def rule_notify(prog):
     return res
 
 
+def rule_pending(prog):
+    """R-RELOAD-PENDING: a reload request that has to wait (an output key is still down) stays pending: the request flag
+    is only ever set to a constant or OR-ed with its previous value, never overwritten by a fresh non-constant value."""
+    res = RuleResult("R-RELOAD-PENDING", "a deferred reload request is not forgotten", floor=2)
+    n = 0
+    for f in prog.fns.values():
+        if f.crate != "kanata_state_machine" or f.derive:
+            continue
+        for bi, si, st in f.all_rvalues():
+            pf = proj_fields(st["p"])
+            if not (pf and pf[-1][0] == K and pf[-1][2] == "live_reload_requested"):
+                continue
+            rv = st["rv"]
+            n += 1
+            how = None
+            if rv["k"] == "use" and is_const(rv["a"]):
+                how = "constant"
+            elif rv["k"] == "bin" and rv["op"] == "BitOr":
+                for o in (rv["a"], rv["b"]):
+                    if is_place(o) and any(x[0] == K and x[2] == "live_reload_requested" for x in proj_fields(o)):
+                        how = "or-ed with its previous value"
+            elif rv["k"] == "agg":
+                how = "constant"
+            ok = how is not None
+            res.inst("store/%s#%d" % (f.norm.split("::")[-1], n), how=how or "overwritten", where="%s:%s" % (f.file, st.get("ln")))
+            res.oblige(ok)
+            if not ok:
+                res.viol("store/%s" % f.norm.split("::")[-1], "%s:%s" % (f.file, st.get("ln")),
+                         "live_reload_requested is overwritten with a freshly computed value: a request that was deferred because an "
+                         "output key was still down is forgotten on the next tick")
+        for bi, t in f.calls():
+            pf = proj_fields(t["dest"])
+            if pf and pf[-1][0] == K and pf[-1][2] == "live_reload_requested":
+                n += 1
+                res.inst("store/%s#%d" % (f.norm.split("::")[-1], n), how="overwritten by a call result", where="%s:%s" % (f.file, t.get("ln")))
+                res.oblige(False)
+                res.viol("store/%s" % f.norm.split("::")[-1], "%s:%s" % (f.file, t.get("ln")),
+                         "live_reload_requested is overwritten with the result of %s: a request that was deferred because an output key "
+                         "was still down is forgotten on the next tick" % (callee_name(t) or "?").split("::")[-1])
+    if n == 0:
+        res.viol("anchors", "src/kanata/mod.rs", "no store to Kanata.live_reload_requested found")
+    return res
+
+
 def run_all(prog):
-    return [rule_atomic(prog), rule_fields(prog), rule_gate(prog), rule_notify(prog)]
+    return [rule_atomic(prog), rule_fields(prog), rule_gate(prog), rule_notify(prog), rule_pending(prog)]
